@@ -29,17 +29,20 @@ pub struct Case {
     /// insertion order of the layers into each map
     pub perm: usize,
     pub two_cells: bool,
+    /// two of the three layers share one layer number (legal in the raw model: layers are keyed, not numbered)
+    pub dup_layer_nums: bool,
 }
 
 const PERMS3: [[usize; 3]; 6] = [[0, 1, 2], [0, 2, 1], [1, 0, 2], [1, 2, 0], [2, 0, 1], [2, 1, 0]];
 const LAYER_NUMS: [i16; 3] = [10, 20, 30];
 const LAYER_NAMES: [&str; 3] = ["la", "lb", "lc"];
 
-fn layers() -> (Layers, Vec<LayerKey>) {
+fn layers(dup: bool) -> (Layers, Vec<LayerKey>) {
     let mut l = Layers::default();
     let mut keys = vec![];
     for i in 0..3 {
-        let layer = Layer::new(LAYER_NUMS[i], LAYER_NAMES[i])
+        let num = if dup && i == 1 { LAYER_NUMS[0] } else { LAYER_NUMS[i] };
+        let layer = Layer::new(num, LAYER_NAMES[i])
             .add_pairs(&[(0, LayerPurpose::Drawing), (1, LayerPurpose::Pin), (2, LayerPurpose::Label), (3, LayerPurpose::Obstruction)])
             .expect("MACHINERY: layer pairs");
         keys.push(l.add(layer));
@@ -70,7 +73,7 @@ fn layer_map(keys: &[LayerKey], n: usize, perm: usize, two_shapes: bool, seed: i
 
 /// A fresh raw library (fresh maps => fresh hash seeds).
 pub fn build_raw(case: &Case) -> Library {
-    let (l, keys) = layers();
+    let (l, keys) = layers(case.dup_layer_nums);
     let mut lib = Library::new("lib", Units::Nano);
     let ncells = if case.two_cells { 2 } else { 1 };
     for c in 0..ncells {
@@ -103,7 +106,10 @@ pub fn build_raw(case: &Case) -> Library {
 /// iteration-order signatures of every unordered map of the abstracts of `lib`, as layer numbers
 fn map_orders(lib: &Library) -> Vec<(String, Vec<i16>)> {
     let layers = lib.layers.read().unwrap();
-    let num = |k: &LayerKey| layers.get(*k).map(|l| l.layernum).unwrap_or(-1);
+    // signature by layer *name* (numbers may repeat), mapped to a small integer
+    let num = |k: &LayerKey| -> i16 {
+        layers.get(*k).map(|l| l.name.as_ref().and_then(|n| LAYER_NAMES.iter().position(|x| x == n)).map(|p| p as i16 + 1).unwrap_or(100 + l.layernum)).unwrap_or(-1)
+    };
     let mut out = vec![];
     for (ci, c) in lib.cells.iter().enumerate() {
         let c = c.read().unwrap();
@@ -146,10 +152,10 @@ pub fn dump_raw(lib: &Library) -> String {
         if let Some(a) = &c.abs {
             s.push_str(&format!(" abs {} {:?}\n", a.name, a.outline));
             for p in &a.ports {
-                let m: BTreeMap<i16, &Vec<Shape>> = p.shapes.iter().map(|(k, v)| (num(k), v)).collect();
+                let m: BTreeMap<(i16, Option<String>), &Vec<Shape>> = p.shapes.iter().map(|(k, v)| ((num(k), layers.get_name(*k).cloned()), v)).collect();
                 s.push_str(&format!("  port {} {:?}\n", p.net, m));
             }
-            let m: BTreeMap<i16, &Vec<Shape>> = a.blockages.iter().map(|(k, v)| (num(k), v)).collect();
+            let m: BTreeMap<(i16, Option<String>), &Vec<Shape>> = a.blockages.iter().map(|(k, v)| ((num(k), layers.get_name(*k).cloned()), v)).collect();
             s.push_str(&format!("  blockages {:?}\n", m));
         }
     }
@@ -236,25 +242,32 @@ pub fn convert_once(case: &Case) -> Result<(Vec<(String, Vec<i16>)>, String), St
             use gds21::*;
             let mut g = GdsLibrary::new("glib");
             g.units = GdsUnits::new(1e-3, 1e-9);
-            let mut leaf = GdsStruct::new("leaf");
+            let mut leaves: Vec<GdsStruct> = ["leafA", "leafB", "leafC"].iter().map(|n| GdsStruct::new(*n)).collect();
             let mut top = GdsStruct::new("top");
             let nl = case.port_layers.max(1);
             for i in 0..nl {
                 for dt in 0..2i16 {
                     let x = 100 * i as i32 + 10 * dt as i32;
-                    leaf.elems.push(GdsElement::GdsBoundary(GdsBoundary { layer: LAYER_NUMS[i], datatype: dt, xy: GdsPoint::vec(&[(x, 0), (x + 50, 0), (x + 50, 20), (x, 20), (x, 0)]), ..Default::default() }));
+                    for (li, leaf) in leaves.iter_mut().enumerate() {
+                        let x = x + 1000 * li as i32;
+                        leaf.elems.push(GdsElement::GdsBoundary(GdsBoundary { layer: LAYER_NUMS[i], datatype: dt, xy: GdsPoint::vec(&[(x, 0), (x + 50, 0), (x + 50, 20), (x, 20), (x, 0)]), ..Default::default() }));
+                    }
                     top.elems.push(GdsElement::GdsBoundary(GdsBoundary { layer: LAYER_NUMS[i], datatype: dt, xy: GdsPoint::vec(&[(x, 0), (x + 30, 0), (x + 30, 30), (x + 10, 40), (x, 0)]), ..Default::default() }));
                     top.elems.push(GdsElement::GdsTextElem(GdsTextElem { string: format!("N{i}{dt}"), layer: LAYER_NUMS[i], texttype: dt, xy: GdsPoint::new(x + 5, 5), ..Default::default() }));
                 }
                 top.elems.push(GdsElement::GdsPath(GdsPath { layer: LAYER_NUMS[i], datatype: 0, xy: GdsPoint::vec(&[(0, 100 + 10 * i as i32), (70, 100 + 10 * i as i32)]), width: Some(4), ..Default::default() }));
             }
-            top.elems.push(GdsElement::GdsStructRef(GdsStructRef { name: "leaf".into(), xy: GdsPoint::new(7, 8), strans: Some(GdsStrans { reflected: true, angle: Some(90.0), ..Default::default() }), ..Default::default() }));
-            top.elems.push(GdsElement::GdsArrayRef(GdsArrayRef { name: "leaf".into(), xy: [GdsPoint::new(0, 0), GdsPoint::new(400, 0), GdsPoint::new(0, 90)], cols: 2, rows: 3, ..Default::default() }));
+            // the top struct references three distinct children (and one of them twice)
+            for (li, n) in ["leafB", "leafC", "leafA"].iter().enumerate() {
+                top.elems.push(GdsElement::GdsStructRef(GdsStructRef { name: n.to_string(), xy: GdsPoint::new(7 + li as i32, 8), strans: Some(GdsStrans { reflected: li == 0, angle: Some(90.0 * li as f64), ..Default::default() }), ..Default::default() }));
+            }
+            top.elems.push(GdsElement::GdsArrayRef(GdsArrayRef { name: "leafA".into(), xy: [GdsPoint::new(0, 0), GdsPoint::new(400, 0), GdsPoint::new(0, 90)], cols: 2, rows: 3, ..Default::default() }));
             if case.two_cells {
+                // top-cell-first listing
                 g.structs.push(top);
-                g.structs.push(leaf);
+                g.structs.extend(leaves);
             } else {
-                g.structs.push(leaf);
+                g.structs.extend(leaves);
                 g.structs.push(top);
             }
             let lib = Library::from_gds(&g, None).map_err(e)?;
@@ -273,10 +286,10 @@ pub fn convert_once(case: &Case) -> Result<(Vec<(String, Vec<i16>)>, String), St
 
 fn case_from_args(args: &[String]) -> Case {
     let v: Vec<usize> = args.iter().map(|a| a.parse().expect("MACHINERY: aux arg")).collect();
-    Case { conv: v[0], port_layers: v[1], block_layers: v[2], two_ports: v[3] == 1, two_shapes: v[4] == 1, perm: v[5], two_cells: v[6] == 1 }
+    Case { conv: v[0], port_layers: v[1], block_layers: v[2], two_ports: v[3] == 1, two_shapes: v[4] == 1, perm: v[5], two_cells: v[6] == 1, dup_layer_nums: v[7] == 1 }
 }
 fn case_args(c: &Case) -> Vec<String> {
-    vec![c.conv, c.port_layers, c.block_layers, c.two_ports as usize, c.two_shapes as usize, c.perm, c.two_cells as usize].iter().map(|x| x.to_string()).collect()
+    vec![c.conv, c.port_layers, c.block_layers, c.two_ports as usize, c.two_shapes as usize, c.perm, c.two_cells as usize, c.dup_layer_nums as usize].iter().map(|x| x.to_string()).collect()
 }
 
 /// fresh-process entry: one conversion, print the hash of the output
@@ -300,7 +313,7 @@ impl CaseDriver for C20 {
     }
     fn describe(&self, _tier: Tier) -> Describe {
         Describe {
-            rule: "inputs: raw libraries with 1-2 abstract cells whose 1-2 ports carry shapes on 1-3 layers and whose blockages sit on 0/2/3 layers (unordered maps with 1-3 keys, every insertion order), 1-2 shapes per layer, plus a layout cell with elements on 3 layers x 2 purposes, an annotation and a reflected+rotated instance; LEF / protobuf / GDSII inputs derived from them in a fixed order. Conversions: raw->GDSII (bytes, dates pinned), raw->protobuf (prost bytes), raw->LEF (serde_json), LEF->raw->LEF, protobuf->raw->protobuf, GDSII->raw, raw->GDSII->raw (raw results as an order-preserving dump). Configurations: every input is rebuilt / re-imported with fresh HashMaps until each of the k! iteration orders of every map the exporter walks has been observed on the very map objects (minimum 8, cap 4096 rebuilds; coverage measured and reported as tags), plus fresh OS processes. A state is (input, conversion); non-trivial = some map has >= 2 keys.".into(),
+            rule: "inputs: raw libraries with 1-2 abstract cells whose 1-2 ports carry shapes on 1-3 layers and whose blockages sit on 0/2/3 layers (unordered maps with 1-3 keys, every insertion order), 1-2 shapes per layer, plus a layout cell with elements on 3 layers x 2 purposes, an annotation and a reflected+rotated instance; LEF / protobuf / GDSII inputs derived from them in a fixed order. Conversions: raw->GDSII (bytes, dates pinned), raw->protobuf (prost bytes), raw->LEF (serde_json), LEF->raw->LEF, protobuf->raw->protobuf, GDSII->raw, raw->GDSII->raw (raw results as an order-preserving dump). Configurations: every input is rebuilt / re-imported with fresh HashMaps until each of the k! iteration orders of every map the exporter walks has been observed on the very map objects (minimum 8, cap 4096 rebuilds; coverage measured and reported as tags), plus fresh OS processes; conversions that expose no map (GDSII->raw) are repeated 32 times - unordered containers internal to a converter cannot be enumerated, only exercised. Two of the three layers may share a layer number. A state is (input, conversion); non-trivial = some map has >= 2 keys.".into(),
             assumptions: vec!["an unordered map in the raw data model itself is rendered sorted (a map has no order); every ordered container must keep its order".into()],
             excluded: vec!["gridded layout -> raw (tetris) conversion determinism is checked as part of C08's driver inputs once per case, not under map-order enumeration: it walks no unordered map".into()],
             technique: "exhaustive enumeration of hash-map iteration orders (observed on the real map objects) x inputs x conversions; outputs compared byte-for-byte within and across processes".into(),
@@ -317,7 +330,8 @@ impl CaseDriver for C20 {
         let two_shapes = c.cost(2, "two-shapes") == 1;
         let perm = c.cost(6, "insertion-order");
         let two_cells = c.cost(2, "two-cells") == 1;
-        Case { conv, port_layers, block_layers, two_ports, two_shapes, perm, two_cells }
+        let dup_layer_nums = c.cost(2, "duplicate-layer-numbers") == 1;
+        Case { conv, port_layers, block_layers, two_ports, two_shapes, perm, two_cells, dup_layer_nums }
     }
     fn check(&self, case: &Case, key: &str, cx: &mut Cx) {
         let nontrivial = case.port_layers >= 2 || case.block_layers >= 2;
@@ -369,7 +383,10 @@ impl CaseDriver for C20 {
                 let k = s.iter().next().map(|o| o.len()).unwrap_or(0);
                 s.len() >= factorial(k)
             });
-            if complete && rebuilds >= 8 {
+            // conversions that walk no map visible through the API may still use unordered containers
+            // internally: those cannot be enumerated, only exercised (32 rebuilds + fresh processes)
+            let min_rebuilds = if seen.is_empty() { 32 } else { 8 };
+            if complete && rebuilds >= min_rebuilds {
                 break;
             }
         }
@@ -411,7 +428,7 @@ impl CaseDriver for C20 {
         cx.outcome("identical");
     }
     fn render(&self, case: &Case) -> Value {
-        json!({"conversion": CONVS[case.conv], "port_layers": case.port_layers, "blockage_layers": case.block_layers, "two_ports": case.two_ports, "two_shapes_per_layer": case.two_shapes, "layer_insertion_order": PERMS3[case.perm % 6], "two_abstract_cells": case.two_cells})
+        json!({"conversion": CONVS[case.conv], "port_layers": case.port_layers, "blockage_layers": case.block_layers, "two_ports": case.two_ports, "two_shapes_per_layer": case.two_shapes, "layer_insertion_order": PERMS3[case.perm % 6], "two_abstract_cells_or_top_first": case.two_cells, "two_layers_share_a_number": case.dup_layer_nums})
     }
     fn guards(&self, _tier: Tier, stats: &Stats, _d: u64) -> Result<(), String> {
         require_tags(stats, &CONVS)?;
